@@ -182,6 +182,9 @@ type Block struct {
 	Txs   [][]byte
 	Kinds []string
 	Votes []abci.VoteInfo `json:"-"` // recomputed from the leader on replay
+	// Ghosts are valid-looking transactions that are never included in a block; the noisy replica simulates and
+	// check-txs them before the block
+	Ghosts [][]byte
 }
 
 // view is what the generator reads from the leader's committed state.
@@ -855,6 +858,14 @@ func GenBlock(rt *rapid.T, leader *Node) Block {
 		}
 		b.Txs = append(b.Txs, tx)
 		b.Kinds = append(b.Kinds, fmt.Sprintf("a%d:%s", a, kind))
+	}
+	for g := rapid.IntRange(0, 2).Draw(rt, "ghosts"); g > 0; g-- {
+		a := rapid.IntRange(0, NActors-1).Draw(rt, "ghostActor")
+		if _, msg, ok := GenMsg(rt, leader, v, a); ok {
+			if tx, err := leader.SignTx(a, 0, 6_000_000, sdk.NewCoins(coin(Bond, 300_000)), msg); err == nil {
+				b.Ghosts = append(b.Ghosts, tx)
+			}
+		}
 	}
 	return b
 }
